@@ -56,9 +56,18 @@ def make_law(rng, law, interaction, l_ref="given"):
 
 def build_tpi(rng, pair, names=("a", "b")):
     from cardillo.interactions import TwoPointInteraction
-    subs, mots = [], []
-    for kind, nm in zip(pair, names):
-        s, _, _, m = gen.make_subsystem(rng, kind, nm)
+    subs, mots, xis, rods = [], [], [None, None], []
+    for i_, (kind, nm) in enumerate(zip(pair, names)):
+        if kind == "rod":
+            # attachment on a rod cross-section (xi1 / xi2 of the interaction): several elements, so that the coordinates of
+            # the element that contains xi are not the leading coordinates of the rod
+            from vlib import rodlite
+            s, xi, rinfo = rodlite.simple_rod(rng, name=nm, nel=int(rng.integers(2, 5)), curved=bool(rng.random() < 0.5))
+            m = None
+            xis[i_] = xi
+            rods.append(rinfo)
+        else:
+            s, _, _, m = gen.make_subsystem(rng, kind, nm)
         subs.append(s); mots.append(m)
     B1 = rng.normal(size=3) * float(rng.random() < 0.6)
     B2 = rng.normal(size=3) * float(rng.random() < 0.6)
@@ -70,8 +79,16 @@ def build_tpi(rng, pair, names=("a", "b")):
         B1 = np.zeros(3)
     if pair[1] == "point_mass":
         B2 = np.zeros(3)
-    tpi = TwoPointInteraction(subs[0], subs[1], B_r_CP1=B1, B_r_CP2=B2)
-    return subs, mots, tpi, {"pair": list(pair), "B_r_CP1": B1, "B_r_CP2": B2}
+    kw = {}
+    if xis[0] is not None:
+        kw["xi1"] = xis[0]
+    if xis[1] is not None:
+        kw["xi2"] = xis[1]
+    tpi = TwoPointInteraction(subs[0], subs[1], B_r_CP1=B1, B_r_CP2=B2, **kw)
+    info = {"pair": list(pair), "B_r_CP1": B1, "B_r_CP2": B2, **kw}
+    if rods:
+        info["rods"] = rods
+    return subs, mots, tpi, info
 
 
 def build_revolute(rng, pair, names=("a", "b"), placement=None):
